@@ -584,6 +584,10 @@ class Table(Vector):
 									selected_cols.append(col.copy())
 									found = True
 									break
+							elif base == col_name_lower:
+								selected_cols.append(col.copy())
+								found = True
+								break
 							else:
 								unique_name = f"{base }__{idx}"
 								seen.add(unique_name)
@@ -597,8 +601,8 @@ class Table(Vector):
 								found = True
 								break
 
-								if not found:
-									raise _missing_col_error(col_name)
+				if not found:
+					raise _missing_col_error(col_name)
 			return Table(selected_cols)
 		
 		if isinstance(key, tuple):
